@@ -377,7 +377,11 @@ func lockHeld(fn *ssa.Function, at ssa.Instruction, ownerPkg, ownerType, mutexFi
 	return false
 }
 
-func checkLockDiscipline(c *Ctx, r *Report, ownerPkg, ownerType, mutexField string, fields map[string]bool, mutationsOnly bool) {
+func checkLockDiscipline(c *Ctx, r *Report, ownerPkg, ownerType, mutexField string, fields map[string]bool, mutationsOnly bool, rule ...string) {
+	lockRule := "C10-R3"
+	if len(rule) > 0 {
+		lockRule = rule[0]
+	}
 	callers := map[*ssa.Function][]ssa.Instruction{}
 	for _, g := range c.Funcs {
 		eachInstr(g, func(in ssa.Instruction) {
@@ -429,13 +433,13 @@ func checkLockDiscipline(c *Ctx, r *Report, ownerPkg, ownerType, mutexField stri
 			key := fmt.Sprintf("%s:%s.%s", fname(f), ownerType, fld.Name())
 			switch {
 			case lockHeld(f, in, ownerPkg, ownerType, mutexField, false):
-				r.OK("C10-R3", key, in.Pos(), mutexField+" is held (dominating Lock/RLock, not released before the access)")
+				r.OK(lockRule, key, in.Pos(), mutexField+" is held (dominating Lock/RLock, not released before the access)")
 			case f.Parent() != nil && lockHeldInParentAtClosure(f, ownerPkg, ownerType, mutexField):
-				r.OK("C10-R3", key, in.Pos(), mutexField+" is held by the enclosing function while this synchronous closure runs")
+				r.OK(lockRule, key, in.Pos(), mutexField+" is held by the enclosing function while this synchronous closure runs")
 			case heldAtEntry(f, 3):
-				r.OK("C10-R3", key, in.Pos(), "helper: every caller holds "+mutexField+" at the call site")
+				r.OK(lockRule, key, in.Pos(), "helper: every caller holds "+mutexField+" at the call site")
 			default:
-				r.Bad("C10-R3", key, in.Pos(), fmt.Sprintf("%s.%s is accessed without %s held", ownerType, fld.Name(), mutexField))
+				r.Bad(lockRule, key, in.Pos(), fmt.Sprintf("%s.%s is accessed without %s held", ownerType, fld.Name(), mutexField))
 			}
 		})
 	}
